@@ -739,6 +739,9 @@ func (m *Model) Apply(msg sdk.Msg, bt time.Time) (ApplyResult, error) {
 			return res, nil
 		}
 		if !ok {
+			if proofAtOtherSequence(e.Doc, t.VerificationMethodId, t.Document, e.Seq, t.Signature) {
+				return res, rej("proof made over another sequence")
+			}
 			return res, rej("proof invalid")
 		}
 		m.Did[t.Did] = &DidEntry{Doc: cloneDoc(t.Document), Seq: e.Seq + 1}
@@ -757,6 +760,9 @@ func (m *Model) Apply(msg sdk.Msg, bt time.Time) (ApplyResult, error) {
 			return res, nil
 		}
 		if !ok {
+			if proofAtOtherSequence(e.Doc, t.VerificationMethodId, content, e.Seq, t.Signature) {
+				return res, rej("proof made over another sequence")
+			}
 			return res, rej("proof invalid")
 		}
 		m.Did[t.Did] = &DidEntry{Tomb: true, Seq: e.Seq + 1}
@@ -863,6 +869,22 @@ func (m *Model) Apply(msg sdk.Msg, bt time.Time) (ApplyResult, error) {
 		res.Unjudged, res.Why = true, "not a custom message"
 	}
 	return res, nil
+}
+
+// proofAtOtherSequence: the proof is a genuine proof of this content by a current authentication key, only made over a
+// sequence near the current one instead of the current one (C04: the sequence the read operation returns is the one
+// the next proof must be made over).
+func proofAtOtherSequence(keyDoc *didtypes.DIDDocument, methodID string, content *didtypes.DIDDocument, cur uint64, sig []byte) bool {
+	for d := int64(-3); d <= 4; d++ {
+		s := int64(cur) + d
+		if d == 0 || s < 0 {
+			continue
+		}
+		if ok, amb := proofOK(keyDoc, methodID, content, uint64(s), sig); ok && !amb {
+			return true
+		}
+	}
+	return false
 }
 
 func sameAddr(a, b string) bool {
